@@ -1,17 +1,31 @@
 (* C03 — Every operation logs in first and binds its commands to that login's session *)
 Require Import AS.Base.Prelude AS.Base.Hex AS.Base.Template AS.Base.Exchange AS.Gen.Extracted AS.Spec.Frame AS.Spec.FrameLayout
   AS.Spec.FrameSpec AS.Model.DeviceTools AS.Model.Messages AS.Model.Remotes AS.Model.Api AS.Model.Ops
-  AS.Proofs.ApiProofs AS.Proofs.SpecOps AS.Proofs.HeaderFields.
+  AS.Proofs.ApiProofs AS.Proofs.SpecOps AS.Proofs.HeaderFields
+  AS.Model.Session AS.Spec.Session AS.Proofs.SessionProofs.
 Local Open Scope N_scope.
 
-(* 1. The exchange model keeps nothing between operations: an operation is a function of the configuration, its own
-   clock reading, its own arguments and the replies it reads (Model/Ops.v run_op has no other input), so no session id,
-   clock reading or device identity of one operation or instance can reach another.  That the Python classes behave like
-   this model under sequences and interleavings is what the correspondence streams of the check test. *)
-Theorem C03_operations_are_independent c now o script1 script2 :
-  script1 = script2 -> Exchange.run (run_op c now o) script1 = Exchange.run (run_op c now o) script2.
-Proof. intros ->. reflexivity. Qed.
+(* 1. Any sequence of operations awaited on one connection (Model/Session.v threads the connection through them: the frames
+   written so far and the device's remaining replies), any device script: the frames on the wire and the outcomes are those
+   of each operation run ALONE on a fresh connection whose device answers with the replies the earlier operations have not
+   consumed - exactly one reply per frame they wrote (Spec/Session.v).  So an operation's frames and outcome are a function of
+   the configuration, its own clock reading, its own arguments and its own replies: no session id, clock reading or device
+   identity of an earlier operation reaches it.  The proof is the frame rule of the exchange model (Proofs/Uniform.v), proved
+   for every operation of both API classes.  That the Python classes behave like this model under sequences and
+   interleavings is what the correspondence streams of the check test. *)
+Theorem C03_operations_are_independent c ops script :
+  run_seq c ops script = (concat (map fst (alone c ops script)), map snd (alone c ops script)).
+Proof. exact (sequence_is_operations_alone c ops script). Qed.
 Print Assumptions C03_operations_are_independent.
+
+(* 1b. Any number of API objects, each with its own configuration and connection, performing operations in any order
+   (Model/Session.v run_world): the connection and the outcomes of object k are those of its own operations, in order, on its
+   own connection - whatever the other objects do in between *)
+Theorem C03_objects_do_not_interfere cfgs sched w k :
+  fst (run_world cfgs sched w) k = fst (seq_ops (cfgs k) (mine k sched) (w k)) /\
+  results_of k (snd (run_world cfgs sched w)) = snd (seq_ops (cfgs k) (mine k sched) (w k)).
+Proof. exact (objects_do_not_interfere cfgs sched w k). Qed.
+Print Assumptions C03_objects_do_not_interfere.
 
 (* 2. Shape of one operation, for every script of device replies: the login frame first; nothing else after an empty
    login reply; exactly one command frame otherwise (type-1 state query; the other operations: theorems of C02, whose
